@@ -12,7 +12,7 @@ from common import f2h
 
 SITES = ['calc_probs', 'save_counter', 'save_indexed', 'save_pcfg_data']
 TRUSTED = ['Counter.most_common() is a stable sort by decreasing count (dict insertion order for ties)',
-           'IEEE division: each written number is the correctly rounded quotient count/total; str(float) round-trips',
+           'binary64 division: the order of the written doubles is PROVED for the model SF.ratio (correctly rounded quotient, monotone in the count: C06_sorted_binary64); trusted is that CPython\'s int/int and float/float are that function - compared bit for bit on every run (fp.ratio / fp.div stream); str(float) round-trips',
            'sums to 1 exactly over the rationals; over doubles up to rounding (the harness checks |sum-1| < 1e-9)']
 ASSUMPTIONS = ['training completes (at least one valid password)']
 
@@ -192,8 +192,12 @@ def run(ctx):
                 disagreements.append({'stream': 'calculate_probabilities', 'op': ops[i][:200], 'model': a[:300], 'implementation': b[:300]})
                 if len(disagreements) >= 5:
                     break
+        import corr_fp
+        fp_dis, fp_info = corr_fp.run(ctx, n_quick=300, n_thorough=5000)
+        disagreements += fp_dis
     else:
         disagreements.append({'stream': 'calculate_probabilities', 'detail': 'driver does not build'})
+        fp_info = {}
     return {'evaluations': cases, 'distinct_nontrivial': nontrivial, 'traces': cases,
             'rule': 'random counters (count ties, single items, a float pseudo-count) through the real calculate_probabilities vs the Lean '
                     'model bit for bit; full trainings of generated lists (all detector triggers, duplicates, e-mail/website structures) '
@@ -202,7 +206,7 @@ def run(ctx):
                     'Markov line rules; trainer.py run twice under different PYTHONHASHSEED must give identical trees modulo uuid. '
                     'non-trivial = counter with a tie and >=3 items, or a full training',
             'samples': samples, 'disagreements': disagreements, 'violations': viol, 'distribution': dist,
-            'extra': {'protocol_ops': len(ops), 'determinism_runs': det_runs}}
+            'extra': dict({'protocol_ops': len(ops), 'determinism_runs': det_runs}, **fp_info)}
 
 
 def replay(ctx, payload):
